@@ -526,7 +526,7 @@ pub fn def(ctx: &Ctx) -> PropertyDef {
         sections: vec![
             Section::random(
                 "move-histories",
-                ctx.cases(6000, 150000),
+                ctx.cases(6000, 40000),
                 move || {
                     (
                         graph_spec(max_n),
@@ -550,7 +550,7 @@ pub fn def(ctx: &Ctx) -> PropertyDef {
             ),
             Section::random(
                 "annealer",
-                ctx.cases(2000, 40000),
+                ctx.cases(2000, 12000),
                 move || {
                     (
                         // mostly small graphs: an accepted move there often changes the width
